@@ -123,14 +123,14 @@ func (e *Fq) Equal(x *Fq) ct.Bool {
 	}
 	return ct.False
 }
-func (e *Fq) Add(a, b *Fq)    { e.v = (a.v + b.v) % Q }
-func (e *Fq) Double(a *Fq)    { e.v = (a.v + a.v) % Q }
-func (e *Fq) Sub(a, b *Fq)    { e.v = (a.v + Q - b.v) % Q }
-func (e *Fq) Neg(a *Fq)       { e.v = (Q - a.v) % Q }
-func (e *Fq) Mul(a, b *Fq)    { e.v = mulmod(a.v, b.v, Q) }
-func (e *Fq) Square(a *Fq)    { e.v = mulmod(a.v, a.v, Q) }
-func (e *Fq) SetZero()        { e.v = 0 }
-func (e *Fq) SetOne()         { e.v = 1 % Q }
+func (e *Fq) Add(a, b *Fq)       { e.v = (a.v + b.v) % Q }
+func (e *Fq) Double(a *Fq)       { e.v = (a.v + a.v) % Q }
+func (e *Fq) Sub(a, b *Fq)       { e.v = (a.v + Q - b.v) % Q }
+func (e *Fq) Neg(a *Fq)          { e.v = (Q - a.v) % Q }
+func (e *Fq) Mul(a, b *Fq)       { e.v = mulmod(a.v, b.v, Q) }
+func (e *Fq) Square(a *Fq)       { e.v = mulmod(a.v, a.v, Q) }
+func (e *Fq) SetZero()           { e.v = 0 }
+func (e *Fq) SetOne()            { e.v = 1 % Q }
 func (e *Fq) SetUint64(u uint64) { e.v = u % Q }
 func b2c(b bool) ct.Bool {
 	if b {
@@ -179,8 +179,8 @@ func (e *Fq) SetUniformBytes(components ...[]byte) ct.Bool {
 }
 
 func (e *Fq) ComponentsBytes() [][]byte { return [][]byte{e.Bytes()} }
-func (e *Fq) Degree() uint64           { return 1 }
-func (e *Fq) Limbs() []uint64          { return []uint64{e.v} }
+func (e *Fq) Degree() uint64            { return 1 }
+func (e *Fq) Limbs() []uint64           { return []uint64{e.v} }
 func (e *Fq) SetLimbs(l []uint64) ct.Bool {
 	if len(l) != 1 || l[0] >= Q {
 		return ct.False
